@@ -121,6 +121,15 @@ def replay(case):
             if np.any(np.diff(np.real(ev)) > 1e-9 * scale):
                 out.append(('amuset:order', 'eigenvalues are not returned in descending order'))
                 break
+            # num_eigvals = k returns the first k of them (relative threshold: the same cut of exact zeros)
+            if len(ev) >= 2:
+                k = 1 + (m % min(2, len(ev) - 1 if len(ev) > 2 else 1))
+                evk, fk, _ = quiet(tg.amuset_hosvd, x, basis(), sig, return_option=opt, num_eigvals=k, **dict(kw, rel_threshold=True))
+                evk = np.asarray(evk)
+                if evk.shape != (k,) or np.max(np.abs(np.real(evk) - np.real(ev[:k]))) > 1e-6 * scale:
+                    out.append(('amuset:num_eigvals', 'num_eigvals=%d returned %r, the first eigenvalues of the full call are %r' % (
+                        k, np.round(np.real(evk), 6), np.round(np.real(ev[:k]), 6))))
+                    break
     except Exception as e:
         out.append(('%s:exception:%s' % (task, type(e).__name__), '%r' % (e,)))
     return out
